@@ -43,6 +43,7 @@ type c11Op struct {
 	When   int    `json:"when,omitempty"`  // 0 add, 1 render-precell, 2 render, 3 render-postcell
 	Target int    `json:"target,omitempty"`
 	Pat    int    `json:"pat,omitempty"` // 0 always fails, 1 fails on odd firings, 2 returns nil
+	How    int    `json:"how,omitempty"` // newrow: 0 NewRow(), 1 NewRowWithCapacity(n), 2 t.NewRowSizedFor()
 }
 
 type c11Err struct{ id int }
@@ -642,11 +643,30 @@ func (h *c11Table) do(op c11Op) (name string, act func(), ok bool) {
 	h.curKind, h.curRow = op.Op, op.R
 	switch op.Op {
 	case "newrow":
+		// three ways to make a row that is not in a table; for all of them the
+		// model's row is fresh_row (no container, not in a table)
 		if h.rows[op.R] != nil {
 			return "", nil, false
 		}
-		return fmt.Sprintf("row%d := tabular.NewRow()", op.R), func() {
-			r := tabular.NewRow()
+		mk := func() *tabular.Row { return tabular.NewRow() }
+		name = fmt.Sprintf("row%d := tabular.NewRow()", op.R)
+		switch op.How % 3 {
+		case 1:
+			mk = func() *tabular.Row { return tabular.NewRowWithCapacity(op.N) }
+			name = fmt.Sprintf("row%d := tabular.NewRowWithCapacity(%d)", op.R, op.N)
+			h.tags = append(h.tags, "row-from=NewRowWithCapacity")
+		case 2:
+			mk = func() *tabular.Row { return t.NewRowSizedFor() }
+			name = fmt.Sprintf("row%d := t.NewRowSizedFor()", op.R)
+			h.tags = append(h.tags, "row-from=NewRowSizedFor")
+		default:
+			h.tags = append(h.tags, "row-from=NewRow")
+		}
+		if len(h.expTable) > 0 {
+			h.tags = append(h.tags, "row-made-while-table-holds-errors")
+		}
+		return name, func() {
+			r := mk()
 			h.rows[op.R], h.rowID[r] = r, op.R
 		}, true
 	case "rowadd":
@@ -726,6 +746,10 @@ func (h *c11Table) do(op c11Op) (name string, act func(), ok bool) {
 			return "", nil, false
 		}
 		h.curKind = "addrow"
+		h.tags = append(h.tags, "row-from=AppendNewRow")
+		if len(h.expTable) > 0 {
+			h.tags = append(h.tags, "row-made-while-table-holds-errors")
+		}
 		h.attach(op.R)
 		return fmt.Sprintf("row%d := t.AppendNewRow()", op.R), func() {
 			r := t.AppendNewRow()
@@ -736,6 +760,10 @@ func (h *c11Table) do(op c11Op) (name string, act func(), ok bool) {
 			return "", nil, false
 		}
 		h.curKind = "addrow"
+		h.tags = append(h.tags, "row-from=AddRowItems")
+		if len(h.expTable) > 0 {
+			h.tags = append(h.tags, "row-made-while-table-holds-errors")
+		}
 		h.attach(op.R)
 		items := make([]interface{}, op.N)
 		for i := range items {
@@ -762,6 +790,9 @@ func (h *c11Table) do(op c11Op) (name string, act func(), ok bool) {
 		id := h.nextHdr
 		h.nextHdr++
 		h.hdrID, h.curRow = id, id
+		if len(h.expTable) > 0 {
+			h.tags = append(h.tags, "headers-made-while-table-holds-errors")
+		}
 		h.joined[id] = true
 		h.emit(fmt.Sprintf("AddHeaders %d", id), fmt.Sprintf("AddHeaders makes header row %d", id))
 		items := make([]interface{}, op.N)
@@ -857,7 +888,10 @@ func c11RunTable(sp c11Spec) CaseOut {
 		if op.L != nil {
 			size += len(*op.L)
 		}
-		size += op.N
+		if op.Op != "newrow" {
+			size += op.N
+		}
+		size += op.How // the plain constructor is the smaller replay
 		goSnip = append(goSnip, name)
 		h.tags = append(h.tags, "op="+op.Op)
 		var tv c11View
@@ -1026,13 +1060,80 @@ var c11TableAlphabet = []c11Op{
 	{Op: "tbllist", L: c11L(1, 0, 1)},
 	{Op: "headers", N: 1},
 	{Op: "render"},
+	// the other ways a row comes to exist, each usable once per history
+	{Op: "newrow", R: 3, How: 2},
+	{Op: "addrow", R: 3},
+	{Op: "appendnew", R: 4},
+	{Op: "addrowitems", R: 5, N: 1},
+}
+
+// c11CreationCases: situation (who already holds errors) x creation path x
+// what happens to the new row, twice over so that a second row made the same
+// way meets the errors of the first.
+func c11CreationCases() []c11Spec {
+	situations := map[string][]c11Op{
+		"no-errors":       {},
+		"table-error":     {{Op: "tblerr", E: 1}},
+		"table-list":      {{Op: "tbllist", L: c11L(1, 0, 1)}, {Op: "tblerr", E: 1}},
+		"detached-other":  {{Op: "newrow", R: 1}, {Op: "rowerr", R: 1, E: 1}},
+		"attached-other":  {{Op: "newrow", R: 1}, {Op: "rowerr", R: 1, E: 1}, {Op: "addrow", R: 1}, {Op: "rowerr", R: 1, E: 1}},
+		"separator-error": {{Op: "sep", R: 2}, {Op: "rowadd", R: 2}},
+		"callback-errors": {{Op: "reg", Owner: "table", When: 0, Target: 2}, {Op: "reg", Owner: "table", When: 0, Target: 1}, {Op: "headers", N: 1}, {Op: "addrowitems", R: 1, N: 1}},
+		"render-errors":   {{Op: "reg", Owner: "table", When: 1, Target: 0}, {Op: "render"}},
+		"all":             {{Op: "tblerr", E: 1}, {Op: "newrow", R: 1}, {Op: "rowerr", R: 1, E: 1}, {Op: "sep", R: 2}, {Op: "rowadd", R: 2}, {Op: "appendnew", R: 3}, {Op: "rowerr", R: 3, E: 1}},
+	}
+	names := []string{"no-errors", "table-error", "table-list", "detached-other", "attached-other", "separator-error", "callback-errors", "render-errors", "all"}
+	// a creation path makes row r; detached paths are followed by the uses given
+	type path struct {
+		name     string
+		make     func(r int) []c11Op
+		detached bool
+	}
+	paths := []path{
+		{"NewRow", func(r int) []c11Op { return []c11Op{{Op: "newrow", R: r}} }, true},
+		{"NewRowWithCapacity", func(r int) []c11Op { return []c11Op{{Op: "newrow", R: r, How: 1, N: 2}} }, true},
+		{"NewRowSizedFor", func(r int) []c11Op { return []c11Op{{Op: "newrow", R: r, How: 2}} }, true},
+		{"AppendNewRow", func(r int) []c11Op { return []c11Op{{Op: "appendnew", R: r}} }, false},
+		{"AddRowItems0", func(r int) []c11Op { return []c11Op{{Op: "addrowitems", R: r}} }, false},
+		{"AddRowItems2", func(r int) []c11Op { return []c11Op{{Op: "addrowitems", R: r, N: 2}} }, false},
+		{"AddHeaders", func(r int) []c11Op { return []c11Op{{Op: "headers", N: 2}} }, false},
+		{"AddSeparator", func(r int) []c11Op { return []c11Op{{Op: "sep", R: r}} }, false},
+	}
+	uses := [][]string{{}, {"rowerr"}, {"rowadd"}, {"rowerr", "rowadd", "rowerr"}}
+	var out []c11Spec
+	for _, sn := range names {
+		for _, p := range paths {
+			for _, u := range uses {
+				if !p.detached && len(u) > 1 {
+					continue
+				}
+				ops := append([]c11Op{}, situations[sn]...)
+				for _, r := range []int{5, 6} {
+					ops = append(ops, p.make(r)...)
+					for _, x := range u {
+						ops = append(ops, c11Op{Op: x, R: r, E: 1})
+					}
+					if p.detached {
+						ops = append(ops, c11Op{Op: "addrow", R: r})
+					}
+					for _, x := range u {
+						ops = append(ops, c11Op{Op: x, R: r, E: 1})
+					}
+					ops = append(ops, c11Op{Op: "tblerr", E: 1})
+				}
+				ops = append(ops, c11Op{Op: "render"})
+				out = append(out, c11Spec{Kind: "table", Ops: ops})
+			}
+		}
+	}
+	return out
 }
 
 func c11RandOp(r *RNG, nRows int) c11Op {
 	row := 1 + r.Intn(nRows)
 	switch r.Intn(20) {
 	case 0, 1:
-		return c11Op{Op: "newrow", R: row}
+		return c11Op{Op: "newrow", R: row, How: r.Intn(3), N: r.Intn(4)}
 	case 2, 3, 4:
 		return c11Op{Op: "rowadd", R: row}
 	case 5, 6:
@@ -1120,11 +1221,8 @@ func c11Gen(r *RNG, tier string) []json.RawMessage {
 		{Op: "reg", Owner: "table", When: 0, Target: 2},
 		{Op: "reg", Owner: "row", R: 1, When: 1, Target: 0},
 	}
-	k := 3
-	if tier == "thorough" {
-		k = 4
-	}
-	for n := 0; n <= k; n++ {
+	routing := c11TableAlphabet[:10] // without the extra row-creation ops
+	for n := 0; n <= 3; n++ {
 		c11Seqs(c11TableAlphabet, n, func(ops []c11Op) {
 			add(c11Spec{Kind: "table", Ops: append(append([]c11Op{}, pre...), ops...)})
 		})
@@ -1133,6 +1231,16 @@ func c11Gen(r *RNG, tier string) []json.RawMessage {
 				add(c11Spec{Kind: "table", Ops: append([]c11Op{{Op: "newrow", R: 1}}, ops...)})
 			})
 		}
+	}
+	if tier == "thorough" {
+		c11Seqs(routing, 4, func(ops []c11Op) {
+			add(c11Spec{Kind: "table", Ops: append(append([]c11Op{}, pre...), ops...)})
+		})
+	}
+	// tables: every way a row (or the header row) comes to exist, in every
+	// situation of errors already held by the table and by other rows
+	for _, sp := range c11CreationCases() {
+		add(sp)
 	}
 	// random longer histories
 	m := 250
@@ -1202,6 +1310,11 @@ func c11Shrink(spec json.RawMessage) []json.RawMessage {
 			o.N--
 			repl(o)
 		}
+		if op.Op == "newrow" && op.How != 0 {
+			o := op
+			o.How, o.N = 0, 0
+			repl(o)
+		}
 		if op.Op == "reg" && op.Pat != 0 {
 			o := op
 			o.Pat = 0
@@ -1224,14 +1337,14 @@ func init() {
 		CaseType: "c11_case",
 		CaseFn:   "C11_case",
 		ModelFn:  "C11_model",
-		Rule: "container histories over {AddError nil/e, AddErrorList nil/[]/[e]/[nil]/[e;nil;e'], Errors, AddErrorList(Errors())} on a nil pointer, " +
+		Rule: "rows made by NewRow, NewRowWithCapacity, t.NewRowSizedFor, t.AppendNewRow, t.AddRowItems, AddHeaders and AddSeparator, before and after the table and other rows hold errors; container histories over {AddError nil/e, AddErrorList nil/[]/[e]/[nil]/[e;nil;e'], Errors, AddErrorList(Errors())} on a nil pointer, " +
 			"&ErrorContainer{} and NewErrorContainer(), the caller overwriting its slice after every AddErrorList; table histories over NewRow, Row.Add " +
 			"(detached, attached, on a separator), Row.AddError, Table.AddError, Table.AddErrorList, AddRow, AppendNewRow, AddRowItems, AddSeparator, AddHeaders, " +
 			"InvokeRenderCallbacks, with failing callbacks registered through RegisterPropertyCallback on table / column / row / cell owners for every target and time, " +
 			"before and after attach; all error values distinct; Errors() of the table, of every row and of the container read after every step; " +
 			"non-trivial = at least one non-nil error is raised; distinct = distinct (history, observations)",
 		Exhaustive: "all 4096 container op sequences of length 4 (hence all shorter ones, as prefixes) over 8 ops x 3 creation modes; every accepted registration " +
-			"(owner x target x time) at every position of a 13-step and of a 7-step build scenario; all table histories of length <= 3 (thorough: 4) over a 10-op routing alphabet",
+			"(owner x target x time) at every position of a 13-step and of a 7-step build scenario; all table histories of length <= 3 over a 14-op alphabet (routing ops plus NewRowSizedFor/AddRow, AppendNewRow, AddRowItems; thorough: also length 4 over the 10 routing ops); every row-creation path (NewRow, NewRowWithCapacity, NewRowSizedFor, AppendNewRow, AddRowItems, AddHeaders, AddSeparator) x 9 situations of errors already held x 4 uses, each path taken twice",
 		Gen: c11Gen,
 		Run: func(spec json.RawMessage) CaseOut {
 			var sp c11Spec
